@@ -115,6 +115,32 @@ func (in *Interp) formatOne(caller *frame, directive string, verb byte, arg Valu
 		return opaqueStr("¿" + x.String() + "¿")
 	case *Term:
 		if !x.IsConst() {
+			if x.w >= 8 && (verb == 'd' || verb == 'v') {
+				_, signed, _ := intType(a.T)
+				digits := in.formatInt(x, signed)
+				// width / zero padding: only the forms %d, %0Nd are modelled
+				if plain {
+					return digits
+				}
+				if len(directive) == 4 && directive[1] == '0' && directive[2] >= '1' && directive[2] <= '9' && !signed {
+					n := int(directive[2] - '0')
+					for digits.Len() < n {
+						digits = strConcat(mkStr("0"), digits)
+					}
+					return digits
+				}
+				if len(directive) == 4 && directive[1] == '0' && directive[2] >= '1' && directive[2] <= '9' && signed {
+					// non-negative values only (the sign would precede the padding)
+					if digits.Len() > 0 && digits.At(0).IsConst() && digits.At(0).c == '-' {
+						return opaqueStr("¿int¿")
+					}
+					n := int(directive[2] - '0')
+					for digits.Len() < n {
+						digits = strConcat(mkStr("0"), digits)
+					}
+					return digits
+				}
+			}
 			return opaqueStr("¿int¿")
 		}
 		if x.w == 0 {
@@ -389,4 +415,60 @@ func init() {
 		}
 		return tFalse
 	})
+}
+
+// formatInt renders a symbolic integer in decimal, forking on the sign and
+// on the number of digits; digits are obtained by division by constants at
+// the narrowest sufficient width.
+func (in *Interp) formatInt(x *Term, signed bool) Str {
+	tt := in.tt
+	w := x.w
+	neg := false
+	if signed {
+		if in.w.branchT(tt.Cmp(OSLt, x, mkConst(w, 0))) {
+			neg = true
+			x = tt.Neg(x) // MinInt stays MinInt: its unsigned reading is the magnitude
+		}
+	}
+	// number of digits
+	k := 1
+	pow := uint64(10)
+	for ; k < 20; k++ {
+		if w < 64 && pow > mask(w) {
+			break
+		}
+		if in.w.branchT(tt.Cmp(OULt, x, mkConst(w, pow))) {
+			break
+		}
+		if pow > (^uint64(0))/10 {
+			k++
+			break
+		}
+		pow *= 10
+	}
+	// narrow
+	nw := w
+	switch {
+	case k <= 2 && w > 8:
+		nw = 8
+	case k <= 4 && w > 16:
+		nw = 16
+	case k <= 9 && w > 32:
+		nw = 32
+	}
+	y := x
+	if nw < w {
+		y = tt.Extract(x, nw-1, 0)
+	}
+	out := make([]*Term, k)
+	for i := k - 1; i >= 0; i-- {
+		d := tt.Bin(OURem, y, mkConst(nw, 10))
+		out[i] = tt.Bin(OAdd, tt.Extract(d, 7, 0), mkConst(8, '0'))
+		y = tt.Bin(OUDiv, y, mkConst(nw, 10))
+	}
+	s := strFromTerms(out)
+	if neg {
+		s = strConcat(mkStr("-"), s)
+	}
+	return s
 }
